@@ -300,6 +300,18 @@ func (g *gen) sanitize(o client.Object) {
 	if g.opt.Avoid["ingress_hosts_fixed"] {
 		// KF-ingress-newer-than-notification: an update never makes an ingress name a host it did not name before
 		if prev, _ := g.objs[KIngress][key].(*networking.Ingress); prev != nil && g.world == nil {
+			// (a host of a TCP service is another resource than the HTTP host of the same name: an update does
+			// not move an ingress between the two kinds, or between ports)
+			if pv, nv := prev.Annotations[annPrefix+"tcp-service-port"], ing.Annotations[annPrefix+"tcp-service-port"]; pv != nv {
+				if ing.Annotations == nil {
+					ing.Annotations = map[string]string{}
+				}
+				if pv == "" {
+					delete(ing.Annotations, annPrefix+"tcp-service-port")
+				} else {
+					ing.Annotations[annPrefix+"tcp-service-port"] = pv
+				}
+			}
 			had := map[string]bool{}
 			for _, r := range prev.Spec.Rules {
 				had[r.Host] = true
